@@ -17,6 +17,9 @@ PKG = "dliswriter"
 # --------------------------------------------------------------------------------------------- data classes
 
 class FuncInfo:
+    def __deepcopy__(self, memo):
+        return self
+
     def __init__(self, name, module, node, cls=None, parent=None):
         self.name = name
         self.module: ModuleInfo = module
@@ -79,6 +82,9 @@ class FuncInfo:
 
 
 class ClassInfo:
+    def __deepcopy__(self, memo):
+        return self
+
     def __init__(self, name, module, node):
         self.name = name
         self.module: ModuleInfo = module
@@ -157,6 +163,9 @@ def _c3(cls: ClassInfo) -> list[ClassInfo]:
 
 
 class ModuleInfo:
+    def __deepcopy__(self, memo):
+        return self
+
     def __init__(self, name, path, relpath, source, is_package):
         self.name = name
         self.path = path
